@@ -12,6 +12,12 @@ tier = sys.argv[1] if len(sys.argv) > 1 else "quick"
 filt = sys.argv[2:]
 if subprocess.run(["git", "-C", "/repo", "status", "--porcelain", "--untracked-files=no"], capture_output=True, text=True).stdout.strip():
     sys.exit("refusing: /repo has uncommitted changes")
+def revert():
+    """undo a seeded change: tracked files back to HEAD, files the patch created under src/ removed"""
+    subprocess.run(["git", "-C", "/repo", "checkout", "--", "."], check=True)
+    subprocess.run(["git", "-C", "/repo", "clean", "-fdq", "--", "src"], check=True)
+
+
 rows = []
 for sid in sorted(os.listdir(os.path.join(VERIF, "seeded"))):
     d = os.path.join(VERIF, "seeded", sid)
@@ -27,7 +33,7 @@ for sid in sorted(os.listdir(os.path.join(VERIF, "seeded"))):
         subprocess.run(["git", "-C", "/repo", "apply", os.path.join(d, "patch.diff")], check=True)
         p = subprocess.run(["./check", "C19", tier], cwd=VERIF, env=env, capture_output=True, text=True)
     finally:
-        subprocess.run(["git", "-C", "/repo", "checkout", "--", "."], check=True)
+        revert()
     out = p.stdout
     open(os.path.join(work, "output.txt"), "w").write(out + p.stderr)
     classes = sorted(set(json.load(open(os.path.join(work, f)))["class"] for f in os.listdir(work) if f.startswith("C19-") and f.endswith(".json")))
@@ -40,14 +46,14 @@ for sid in sorted(os.listdir(os.path.join(VERIF, "seeded"))):
             rp = subprocess.run(["./check", "C19", "--replay", os.path.join(work, reps[0])], cwd=VERIF, env=env, capture_output=True, text=True)
             replayed = rp.returncode == 1 and "VIOLATION property=C19" in rp.stdout
         finally:
-            subprocess.run(["git", "-C", "/repo", "checkout", "--", "."], check=True)
+            revert()
     row = {"id": sid, "tier": tier, "exit": p.returncode, "classes": classes, "replay_reproduced": replayed, "wall_s": round(time.time() - t0)}
     rows.append(row)
     print(json.dumps(row), flush=True)
     mp = os.path.join(d, "meta.json")
     meta = json.load(open(mp))
     meta["checks_run"] = [r for r in meta.get("checks_run", []) if r.get("tier") != tier] + [
-        {"cmd": f"git -C /repo apply seeded/{sid}/patch.diff; ./check C19 {tier}; git -C /repo checkout -- .", "tier": tier,
+        {"cmd": f"git -C /repo apply seeded/{sid}/patch.diff; ./check C19 {tier}; git -C /repo checkout -- . && git -C /repo clean -fdq -- src", "tier": tier,
          "exit": p.returncode, "violation_classes": classes, "replay_reproduced": replayed,
          "verif_commit": subprocess.run(["git", "-C", VERIF, "rev-parse", "--short", "HEAD"], capture_output=True, text=True).stdout.strip()}]
     json.dump(meta, open(mp, "w"), indent=1)
